@@ -98,9 +98,44 @@ def run_case(case, rec, cid, begin=True):
     rnd = random.Random(case.get("seed", 0))
     cm = common(case)
     if k == "point":
-        argv = base_args(case) + [render.tp_text(case["g"])] + off_args(rnd, rnd.choice(["--offset", "--offset1", "-s"]), case["offs"])
-        out, code, msg, esc = run_cli(argv, case["envcal"], case["sys"])
+        item = render.tp_text(case["g"])
+        pf = case.get("pf") or {"kind": "none"}
+        pp = case.get("pp")
+        argv = base_args(case)
+        env_ref = None
+        src = case.get("src", "item")
+        if src == "ref-opt":
+            argv += ["--ref=" + item, "ref"]
+        elif src == "ref-env":
+            env_ref = item
+            argv += ["ref"]
+        else:
+            argv += [item]
+        argv += off_args(rnd, rnd.choice(["--offset", "--offset1", "-s"]), case["offs"])
+        if pf["kind"] == "strf":
+            from harness.drivers.c17 import fmt_text
+            argv.append(rnd.choice(["--print-format=", "--format="]) + fmt_text(pf["toks"]))
+        elif pf["kind"] == "iso":
+            argv.append("--print-format=" + pf["fmt"])
+        if pp:
+            from harness.drivers.c17 import fmt_text
+            argv.append("--parse-format=" + fmt_text(pp))
+        old_ref = os.environ.get("ISODATETIMEREF")
+        if env_ref is not None:
+            os.environ["ISODATETIMEREF"] = env_ref
+        try:
+            out, code, msg, esc = run_cli(argv, case["envcal"], case["sys"])
+        finally:
+            if env_ref is not None:
+                if old_ref is None:
+                    os.environ.pop("ISODATETIMEREF", None)
+                else:
+                    os.environ["ISODATETIMEREF"] = old_ref
+        dummy_g = case["g"]
         rec.ev("CliPoint", cid, g=case["g"], offs=[proj_dur(mk_dur(d)) for d in case["offs"]], out=render.codes(out), code=code,
+               pf={"kind": pf["kind"], "toks": pf.get("toks", []), "g": pf.get("g", dummy_g),
+                   "lz": [bool(pf.get("lz")), (pf.get("lz") or [0, 0])[0], (pf.get("lz") or [0, 0])[1]]},
+               pp={"has": bool(pp), "toks": pp or []},
                traceback=esc is not None, cls=type(esc).__name__ if esc else "", **cm)
         return True
     if k == "diff":
@@ -218,7 +253,47 @@ def expand(job):
         base = {"cal": cal, "envcal": envcal, "utc": rnd.random() < 0.3, "sys": c07.rand_sys(rnd), "seed": rnd.randrange(10 ** 9)}
         x = rnd.random()
         if x < 0.45:
-            yield dict(base, kind="point", g=pick_g(rnd, m, forms), offs=[dict(rnd.choice(OFFS)) for _ in range(rnd.choice([0, 1, 1, 2, 3]))])
+            case = dict(base, kind="point", g=pick_g(rnd, m, forms), offs=[dict(rnd.choice(OFFS)) for _ in range(rnd.choice([0, 1, 1, 2, 3]))])
+            y = rnd.random()
+            if y < 0.15:
+                from harness.drivers.c17 import rand_format
+                toks, _ = rand_format(rnd)
+                if not any(t_["d"] == "s" for t_ in toks):
+                    case["pf"] = {"kind": "strf", "toks": toks}
+            elif y < 0.35:
+                fg = pick_g(rnd, m, [f_ for f_ in forms if f_["wf"] and f_["tform"] not in ("none",) and f_["zform"] != "none"])
+                fg["ds"] = []
+                ext = fg["dform"].endswith("-e")
+                dtxt = {"cal-b": "CCYYMMDD", "cal-e": "CCYY-MM-DD", "ord-b": "CCYYDDD", "ord-e": "CCYY-DDD", "week-b": "CCYYWwwD", "week-e": "CCYY-Www-D"}[fg["dform"]]
+                if fg["xd"]:
+                    dtxt = "+X" + dtxt
+                ttxt = {"hms-b": "hhmmss", "hm-b": "hhmm", "h": "hh", "hms-e": "hh:mm:ss", "hm-e": "hh:mm"}[fg["tform"]]
+                lit = rnd.random() < 0.6
+                if fg["zform"] == "Z":
+                    ztxt, lz = "Z", [0, 0]
+                elif lit:
+                    zh, zm = rnd.choice([(1, 0), (-5, 0), (5, 30), (-3, -30), (0, -30), (13, 45)])
+                    if fg["zform"] == "hh":
+                        zm = 0
+                    ztxt, lz = render.zone_text(zh, zm, fg["zform"]), [zh, zm]
+                else:
+                    ztxt, lz = {"hh": "+hh", "hhmm": "+hhmm", "hh:mm": "+hh:mm"}[fg["zform"]], None
+                    if fg["zform"] == "hh":
+                        continue      # "+hh" alone would drop the minutes of the point's own offset
+                case["pf"] = {"kind": "iso", "g": fg, "fmt": dtxt + "T" + ttxt + ztxt, "lz": lz}
+            elif y < 0.45:
+                g2 = dict(case["g"], dform="cal-e", tform="hms-e", zform="hhmm", xd=0, ds=[])
+                from harness import refcal as R_
+                if g2["a"] > 12 or g2["b"] < 1 or g2["b"] > R_.dim(m, g2["y"], min(max(g2["a"], 1), 12)):
+                    g2.update(a=2, b=28)
+                if g2["zh"] == 0 and g2["zm"] == 0 and case["g"]["zform"] in ("none", "Z"):
+                    g2.update(zh=rnd.choice([0, 1, -3]), zm=0)
+                case["g"] = g2
+                case["pp"] = [{"d": "F", "c": 0}, {"d": "lit", "c": 84}, {"d": "X", "c": 0}, {"d": "z", "c": 0}]
+            y2 = rnd.random()
+            if y2 < 0.1 and "pp" not in case:
+                case["src"] = rnd.choice(["ref-opt", "ref-env"])
+            yield case
         elif x < 0.7:
             yield dict(base, kind="diff", g=pick_g(rnd, m, forms), g2=pick_g(rnd, m, forms),
                        offs=[dict(rnd.choice(OFFS)) for _ in range(rnd.choice([0, 0, 1]))],
